@@ -11,6 +11,12 @@ CHECKS = {
  "C02": ("exploration", "equality monitor against the independent packer's input + residual-heap and allocation monitors; ASan/LSan run of the same workload",
          "Entries of all three kinds packed by an independent Python packer (Python zlib streams of every block type, arbitrary splits) are read back through the real library and compared byte for byte / section by section; the allocator monitor checks that nothing stays allocated after each call and ASan+LSan watch the unsafe slice cast and the inflate path.",
          "Python zlib; entry layouts as documented"),
+ "C03": ("exploration", "conservation monitor: directory tree after apply == Python interpreter of the reference ZiPatch semantics on the same abstract op list; strace syscall monitor on one-shot applies (thorough)",
+         "Abstract op lists are serialised to the reference wire format by an independent builder and interpreted by an independent model; the whole target tree is snapshotted and compared byte for byte after every apply (bounded-exhaustive over short sequences of a 12-op alphabet x 3 platforms, random long sequences, chains of patches, pre-existing trees); the syscall monitor additionally checks that nothing outside the modelled paths is created, truncated or removed.",
+         "reference semantics as implemented by XIVLauncher; listed leniencies for directory effects"),
+ "C04": ("exploration", "conservation monitor on W = copy(A) after apply(create(A,B)) + immutability monitor on A and B (snapshots; strace in thorough tier)",
+         "Random pairs of trees with every overlap class are pushed through create/apply and the resulting tree compared with B on non-empty files; A and B are snapshotted before and after, and strace shows that create opens nothing for writing under them.",
+         "empty files / left-over empty directories unconstrained"),
  "C05": ("exploration", "reference-model monitor cell by cell against values planted by an independent EXH/EXD builder; direct buffers and archive route",
          "Every cell of every stored (sub-)row is compared with the planted value for all 19 column types incl. shared packed-bool bytes, NaN payloads, extreme integers, long strings and large sub-row tables; names/pages/languages are resolved through a generated archive as well.",
          "EXH/EXD layout as in Lumina; single-sub-row sheets not generated"),
